@@ -87,12 +87,17 @@ static_assert(FSM::stateId<H>() == ffsm2::INVALID_STATE_ID, "the root head has t
 
 template <unsigned I>
 const void* accessPtr(Instance& m) { return &m.access<W<I>>(); }
+// ... and the const overload names the same object (bound to a reference first: a by-value return would compile, too)
+template <unsigned I>
+const void* constAccessPtr(const Instance& m) { const W<I>& r = m.access<W<I>>(); return &r; }
 template <unsigned I>
 bool isActiveT(const Instance& m) { return m.isActive<W<I>>(); }
 template <unsigned I>
 unsigned idOf() { return FSM::stateId<W<I>>(); }
 
 using AccFn = const void* (*)(Instance&);
+using CAccFn = const void* (*)(const Instance&);
+template <size_t... I> std::vector<CAccFn> caccTable(std::index_sequence<I...>) { return {&constAccessPtr<I>...}; }
 using ActFn = bool (*)(const Instance&);
 using IdFn = unsigned (*)();
 template <size_t... I> std::vector<AccFn> accTable(std::index_sequence<I...>) { return {&accessPtr<I>...}; }
@@ -132,6 +137,7 @@ std::string expStr(const std::vector<Expect>& e) {
 }
 
 const std::vector<AccFn> ACC = accTable(std::make_index_sequence<N>{});
+const std::vector<CAccFn> CACC = caccTable(std::make_index_sequence<N>{});
 const std::vector<ActFn> ACT = actTable(std::make_index_sequence<N>{});
 const std::vector<IdFn> IDS = idTable(std::make_index_sequence<N>{});
 
@@ -148,6 +154,8 @@ void checkIdentity(Instance& m, const char* where) {
 			continue;
 		}
 		if (r.sid >= N) { viol("C14", "callback-of-unknown-state", std::string(where) + ": " + logStr()); continue; }
+		if (CACC[r.sid](m) != ACC[r.sid](m))
+			viol("C14", "access-identity|const-overload", std::string(where) + ": access<W<" + std::to_string(r.sid) + ">>() on a const machine is another object than on the mutable one");
 		if (r.self != ACC[r.sid](m))
 			viol("C14", std::string("access-identity|") + kname[r.kind], std::string(where) + ": " + kname[r.kind] + " of state " + std::to_string(r.sid) + " ran on an object that is not access<W<" + std::to_string(r.sid) + ">>()");
 		g_stats.add("identity_checks");
@@ -299,6 +307,7 @@ void runC12() {
 	constexpr unsigned BYTES = sizeof(Instance::SerialBuffer);
 	if ((1ull << (BITS - 1)) < N) viol("C12", "buffer-capacity-too-small", std::to_string(BITS) + " bits for " + std::to_string(N) + " states");
 	std::vector<std::vector<uint8_t>> canon(N + 1);
+	std::vector<Instance::SerialBuffer> canonBuf(N + 1);
 	// loader states sampled for large N (every saver activity is still loaded into every 'interesting' loader state)
 	std::vector<int> loaderStates;
 	const bool allPairs = g_args.thorough() || N <= 33;
@@ -319,6 +328,7 @@ void runC12() {
 		for (int prev = -1; prev < a; ++prev)
 			if (canon[static_cast<size_t>(prev + 1)] == bytes) { viol("C12", "buffers-equal-for-different-activity", "activity " + std::to_string(prev) + " and " + std::to_string(a) + " serialise identically"); break; }
 		canon[static_cast<size_t>(a + 1)] = bytes;
+		canonBuf[static_cast<size_t>(a + 1)] = g.buf;
 		for (int b : loaderStates) {
 			putInto(loader, b);
 			// the loader reads from a copy of the buffer placed between canaries of a varying pattern
@@ -349,6 +359,16 @@ void runC12() {
 			g_sigs.insert(vh::mix(vh::mix(N, WIDE_HEAD), vh::mix(static_cast<uint64_t>(a + 1), static_cast<uint64_t>(b + 1))));
 		}
 	}
+	// "equal buffers if and only if equal activity", asked through the buffer type's own comparison operators
+	for (size_t i = 0; i <= N; ++i)
+		for (size_t j = 0; j <= N; ++j) {
+			const bool eq = canonBuf[i] == canonBuf[j], ne = canonBuf[i] != canonBuf[j];
+			if (eq != (i == j) || ne != (i != j)) {
+				viol("C12", "buffer-comparison-operators-vs-activity", "buffers of activity " + std::to_string(static_cast<int>(i) - 1) + " and " + std::to_string(static_cast<int>(j) - 1) + ": operator== says " + std::to_string(eq) + ", operator!= says " + std::to_string(ne));
+				i = N + 1; break;
+			}
+			g_stats.add("buffer_operator_comparisons");
+		}
 	// the same round trip through a buffer that is a heap object of exactly sizeof(SerialBuffer) bytes: under
 	// AddressSanitizer / memcheck an access one byte past it is reported (C18)
 	for (int a = -1; a < static_cast<int>(N); a += (N > 40 ? 7 : 1)) {
